@@ -87,6 +87,33 @@ TARGETS = [
 ]
 
 
+# retry / rejection-sampling loops whose specification is "repeat until a candidate succeeds": the loop facts (kind of every loop in
+# source order, and whether its condition is a non-zero integer literal / absent, i.e. the loop can only be left from inside) are
+# pinned by Props/*_guards.lean - a bound added to such a loop makes the function return without a result on rare inputs
+LOOP_TARGETS = ['secp256k1_ellswift_xelligatorswift_var', 'secp256k1_ecdsa_sign_inner', 'secp256k1_whitelist_sign',
+                'secp256k1_surjectionproof_initialize', 'secp256k1_surjectionproof_csprng_next']
+
+
+def loops_for(front, name):
+    fd = front.function(name)
+    out = []
+    def lit_true(c):
+        c = strip(c) if c else None
+        return c is not None and c.get('kind') == 'IntegerLiteral' and int(c.get('value', '0')) != 0
+    def f(n, anc):
+        k = n.get('kind')
+        if k == 'WhileStmt': out.append(('while', lit_true(n['inner'][0])))
+        elif k == 'DoStmt':
+            c = strip(n['inner'][1])
+            if not (c.get('kind') == 'IntegerLiteral' and int(c.get('value', '1')) == 0):     # `do { } while(0)` of the ARG_CHECK macros is no loop
+                out.append(('do', lit_true(n['inner'][1])))
+        elif k == 'ForStmt':
+            c = n['inner'][2] if len(n.get('inner', [])) > 2 else None
+            out.append(('for', (not c) or c == {} or lit_true(c)))
+    walk([c for c in fd['inner'] if c['kind'] == 'CompoundStmt'][0], f)
+    return out
+
+
 def walk(n, f, anc=()):
     f(n, anc)
     for c in n.get('inner', []) or []:
@@ -248,12 +275,23 @@ def regenerate(_arg, repo, lean_dir):
                                                        'none' if f['flag'] is None else 'some ' + lean_bool(f['flag'])) for f in mine))
         body.append(']')
         body.append('')
-    body += ['end Facts', '', '/-- every audited function with its facts (names only for reporting) -/',
+    body += ['end Facts', '', 'inductive LoopKind where', '  | while | do | for', 'deriving Repr, DecidableEq', '',
+             '/-- one loop of a function, in source order; `unconditional`: the condition is a non-zero literal (or absent) -/',
+             'structure LoopFact where', '  kind : LoopKind', '  unconditional : Bool', 'deriving Repr, DecidableEq', '', 'namespace Loops', '']
+    nloops = 0
+    for t in LOOP_TARGETS:
+        try:
+            ls = loops_for(front, t); nloops += len(ls)
+            body.append('def %s : List LoopFact := [%s]' % (short(t), ', '.join('⟨.%s, %s⟩' % (k, lean_bool(u)) for k, u in ls)))
+        except Exception as e:
+            errors.append('G:loops:%s: %s: %s' % (t, type(e).__name__, e))
+    body += ['', 'end Loops', '']
+    body += ['/-- every audited function with its facts (names only for reporting) -/',
              'def callFacts : List (String × List CallFact) := [']
     body.append(',\n'.join('  (%s, Facts.%s)' % (lean_str(short(t)), short(t)) for t in TARGETS))
     body += [']', '', 'end Gen', 'end SecpZkp', '']
     write_if_changed(os.path.join(lean_dir, 'SecpZkp', 'Gen', 'Guards.lean'), '\n'.join(body))
-    return {'errors': errors, 'targets': [{'mode': 'G', 'name': 'guards', 'facts': len(facts), 'functions': len(TARGETS)}], 'obligations': 1}
+    return {'errors': errors, 'targets': [{'mode': 'G', 'name': 'guards', 'facts': len(facts), 'functions': len(TARGETS), 'loop_facts': nloops}], 'obligations': 1}
 
 
 if __name__ == '__main__':
